@@ -1,6 +1,8 @@
 mod c01;
 mod c04;
 mod c05;
+mod c07;
+mod c08;
 mod c19;
 mod common;
 mod json;
@@ -60,6 +62,8 @@ fn main() {
         "C01" => (c01::run(&cfg), c01::RULE, c01::REQUIRED),
         "C04" => (c04::run(&cfg), c04::RULE, c04::REQUIRED),
         "C05" => (c05::run(&cfg), c05::RULE, c05::REQUIRED),
+        "C07" => (c07::run(&cfg), c07::RULE, c07::REQUIRED),
+        "C08" => (c08::run(&cfg), c08::RULE, c08::REQUIRED),
         "C19" => (c19::run(&cfg), c19::RULE, c19::REQUIRED),
         _ => usage(),
     };
